@@ -1,5 +1,5 @@
 """C16 - krb5.conf parsing, realm resolution and KDC selection follow MIT semantics."""
-import os, shutil, json, random
+import sys, os, shutil, json, random
 import vlib
 from cryptocommon import line_trace
 
@@ -242,9 +242,38 @@ def main(tier):
                          "nested": any(r["nested"] for r in m["realms"]), "unchanged": x["got"].get("unchanged", False)}
             run.violation(facts, {"line": x})
         run.extra["rejected_lines"] = len(bad)
+        # ---- KDC discovery through DNS SRV records (SRVDiscovery.tla): the real GetKDCs and Login with a stub name server on
+        # 127.0.0.1:53 (the address this sandbox's resolver asks).  The listed property speaks of CONFIGURED servers, so what is found
+        # here is recorded (and printed), it does not decide the exit code; when the port is taken by another run nothing is observed.
+        keep = trace + ".c16"
+        os.rename(trace, keep)
+        try:
+            vlib.run_harness(["dnssrv", "-seed", str(run.seed), "-n", "40" if not run.thorough else "400", "-out", trace], timeout=1200,
+                             env={"GODEBUG": "netdns=go"})
+            dl = vlib.read_ndjson(trace)
+            dns = {"lines": len(dl), "lookups": sum(1 for x in dl if x["ev"] == "lookup"), "logins": sum(1 for x in dl if x["ev"] == "login"),
+                   "logins_ok": sum(1 for x in dl if x["ev"] == "login" and x["ok"]),
+                   "record_sets_with_several_priorities": sum(1 for x in dl if x["ev"] == "login" and False) }
+            dns["record_sets_with_several_priorities"] = len({x["realm"] for x in dl if x["ev"] == "lookup" and len({r["prio"] for r in x["records"]}) > 1})
+            if any(x["ev"] == "skipped" for x in dl):
+                dns["skipped"] = next(x["why"] for x in dl if x["ev"] == "skipped")
+            else:
+                dbad = line_trace(run, wd, "TraceSRV", len(dl), timeout=1200)
+                dns["rejected_lines"] = len(dbad)
+                if dbad:
+                    x = dl[dbad[0] - 1]
+                    print("OBSERVATION (KDC discovery through DNS, outside the listed properties' 'configured' servers): %d of %d lines are not "
+                          "behaviours of SRVDiscovery; first: %s" % (len(dbad), len(dl), json.dumps(x)[:600]), file=sys.stderr)
+                    dns["first_rejected"] = x
+                elif dns["logins_ok"] == 0 or dns["record_sets_with_several_priorities"] == 0:
+                    raise vlib.Inconclusive("DNS discovery trace vacuous: %s" % dns)
+            run.extra["dns_discovery"] = dns
+        finally:
+            os.replace(keep, trace)
         run.assumptions += ["boolean spellings are those gokrb5 documents (ParseBool + yes/y/no/n); 'on'/'off' are not in the model",
                             "des3-cbc-sha1 / des3-hmac-sha1 (ambiguous between the IANA and MIT name tables) are not in the model's enctype table",
-                            "trailing comments after a value are not MIT syntax and are not generated; DNS SRV discovery is not modelled (no resolver offline)"]
+                            "trailing comments after a value are not MIT syntax and are not generated",
+                            "KDC discovery through DNS SRV records is specified (SRVDiscovery.tla) and observed with a stub name server, but does not decide the verdict: the property speaks of configured servers"]
     finally:
         shutil.rmtree(wd, ignore_errors=True)
     run.finish(exhaustive=False)
